@@ -1391,6 +1391,7 @@ int ChanBatch(const ChanOptions &opt) {
   po.budget_s = opt.budget_s;
   po.log_dir = opt.log_dir;
   po.hashlog = opt.hashlog;
+  po.permute = opt.budget_s > 0;
   if (opt.max_deaths) po.max_deaths = opt.max_deaths;
   PoolResult pr = RunPool(po, cb);
 
